@@ -1235,12 +1235,14 @@ Definition store_step (st : list ((N * N) * checkpoint)) (q : req) : list ((N * 
   | _ => aset keyeqb (cp_key (q_cp q)) (q_cp q) st
   end.
 
-Lemma store_of_step_today rc q : rc_store (recv_step defective rc q) = store_step (rc_store rc) q.
-Proof. unfold recv_step, store_step. simpl. destruct (q_act q); reflexivity. Qed.
+Lemma store_of_step_today fl rc q : f_stale fl = true -> rc_store (recv_step fl rc q) = store_step (rc_store rc) q.
+Proof. intros Hs. unfold recv_step, store_step. rewrite Hs. simpl. destruct (q_act q); reflexivity. Qed.
 
-Lemma store_of_run_today qs : forall rc, rc_store (recv_run defective rc qs) = fold_left store_step qs (rc_store rc).
+Lemma store_of_run_today fl qs : f_stale fl = true ->
+  forall rc, rc_store (recv_run fl rc qs) = fold_left store_step qs (rc_store rc).
 Proof.
-  induction qs as [|q r IH]; intros rc; [reflexivity|]. rewrite recv_run_cons, IH, store_of_step_today. reflexivity.
+  intros Hs. induction qs as [|q r IH]; intros rc; [reflexivity|].
+  rewrite recv_run_cons, IH, store_of_step_today by exact Hs. reflexivity.
 Qed.
 
 Fixpoint last_write (k : N * N) (qs : list req) : option (option checkpoint) :=
@@ -1300,18 +1302,212 @@ Proof.
     destruct (last_write k (firstn (b - m) (skipn m reqs))); [discriminate|]. rewrite E. reflexivity.
 Qed.
 
-Lemma converges_store_today g0 cap g evs d :
+Lemma converges_store_today g0 cap g fl evs d :
+  f_stale fl = true ->
   g <> 0%N -> (forall e, In e evs -> s_srg (fst e) = g) -> (N.of_nat (length evs) < n64)%N ->
   let reqs := snd (sender_run [(g, (0%N, new_ring cap))] evs) in
   delivery_runs reqs 0 d (length reqs) ->
-  forall k, aget keyeqb k (rc_store (recv_run defective (mkrecv [] [] g0) d)) =
+  forall k, aget keyeqb k (rc_store (recv_run fl (mkrecv [] [] g0) d)) =
             aget keyeqb k (expected_store (live_run evs)).
 Proof.
-  intros Hg Hall Hlt reqs Hd k. unfold reqs in *.
+  intros Hs Hg Hall Hlt reqs Hd k. unfold reqs in *.
   destruct (stream_of_sender cap g evs Hg Hall Hlt) as [E _]. rewrite E in Hd.
-  destruct (store_inorder defective g evs 0%N (mkrecv [] [] g0) [] eq_refl eq_refl) as [A _].
+  destruct (store_inorder fl g evs 0%N (mkrecv [] [] g0) [] eq_refl eq_refl) as [A _].
   unfold live_run. fold (live_fold [] evs). rewrite <- A.
-  rewrite !store_of_run_today, !aget_store_run. cbn [rc_store].
+  rewrite !(store_of_run_today fl _ Hs), !aget_store_run. cbn [rc_store].
   pose proof (runs_last_write _ _ _ _ Hd [] (fun k' => eq_refl) k) as R. simpl in R.
   rewrite R, firstn_all. reflexivity.
+Qed.
+
+(* ================================================================== *)
+(* 6. /repo HEAD's receiver (no sequence comparison; previous           *)
+(*    reservation released pool-aware): store and pools                 *)
+(* ================================================================== *)
+Lemma recv_update_head fl rc c : f_drop fl = false -> f_relall fl = false -> recv_update fl rc c = recv_update repaired rc c.
+Proof.
+  intros Hd Hr. unfold recv_update. rewrite Hd. cbn [f_drop repaired].
+  destruct (aget keyeqb (cp_key c) (rc_store rc)); [|reflexivity].
+  unfold release_cp. rewrite Hr. reflexivity.
+Qed.
+Lemma recv_delete_head fl rc c : f_drop fl = false -> f_relall fl = false -> recv_delete fl rc c = recv_delete repaired rc c.
+Proof.
+  intros Hd Hr. unfold recv_delete. rewrite Hd. cbn [f_drop repaired].
+  destruct (aget keyeqb (cp_key c) (rc_store rc)); [|reflexivity].
+  unfold release_cp. rewrite Hr. reflexivity.
+Qed.
+
+Lemma recv_step_head fl rc q : f_stale fl = true -> f_drop fl = false -> f_relall fl = false ->
+  recv_step fl rc q =
+  let rc1 := mkrecv (aset N.eqb (q_srg q) (q_seq q) (rc_last rc)) (rc_store rc) (rc_reg rc) in
+  match q_act q with ADelete => recv_delete repaired rc1 (q_cp q) | _ => recv_update repaired rc1 (q_cp q) end.
+Proof.
+  intros Hs Hd Hr. unfold recv_step. rewrite Hs. cbn [negb andb]. cbv zeta.
+  destruct (q_act q); rewrite ?recv_update_head, ?recv_delete_head by assumption; reflexivity.
+Qed.
+
+Lemma aset_same {V} k (v : V) l : aget keyeqb k l = Some v -> aset keyeqb k v l = l.
+Proof.
+  induction l as [|[k0 v0] r IH]; simpl; [discriminate|]. destruct (keyeqb k k0) eqn:E.
+  - intros H; inversion H; subst. apply keyeqb_eq in E. subst. reflexivity.
+  - intros H. rewrite IH by exact H. reflexivity.
+Qed.
+Lemma adel_absent {V} k (l : list ((N * N) * V)) : aget keyeqb k l = None -> adel keyeqb k l = l.
+Proof.
+  induction l as [|[k0 v0] r IH]; simpl; [reflexivity|]. destruct (keyeqb k k0) eqn:E; [discriminate|].
+  intros H. rewrite IH by exact H. reflexivity.
+Qed.
+
+Lemma aget_live_step k live s rel :
+  aget keyeqb k (live_step live s rel) =
+  if keyeqb k (sess_key s) then (if rel then None else Some s) else aget keyeqb k live.
+Proof.
+  unfold live_step. destruct rel; [apply (aget_adel keyeqb keyeqb_eq)|apply (aget_aset keyeqb keyeqb_eq)].
+Qed.
+
+Lemma live_fold_one live s rel : live_fold live [(s, rel)] = live_step live s rel.
+Proof. reflexivity. Qed.
+
+Lemma live_fold_app live a b : live_fold live (a ++ b) = live_fold (live_fold live a) b.
+Proof. unfold live_fold. apply fold_left_app. Qed.
+
+(* the newest event of a session among those handled so far: handling it again changes nothing *)
+Lemma live_latest evs k m s rel :
+  nth_error evs k = Some (s, rel) -> (k < m)%nat ->
+  (forall j e', (k < j < m)%nat -> nth_error evs j = Some e' -> sess_key (fst e') <> sess_key s) ->
+  live_step (live_fold [] (firstn m evs)) s rel = live_fold [] (firstn m evs).
+Proof.
+  intros Hk Hkm Hlat.
+  assert (A : aget keyeqb (sess_key s) (live_fold [] (firstn m evs)) = if rel then None else Some s).
+  { assert (G : forall n, (k < n)%nat ->
+       (forall j e', (k < j < n)%nat -> nth_error evs j = Some e' -> sess_key (fst e') <> sess_key s) ->
+       aget keyeqb (sess_key s) (live_fold [] (firstn n evs)) = if rel then None else Some s).
+    { induction n as [|n IH]; intros Hn Hl; [lia|].
+      destruct (nth_error evs n) as [[s' rel']|] eqn:En.
+      - assert (F : firstn (S n) evs = firstn n evs ++ [(s', rel')]).
+        { rewrite (firstn_split n (S n) evs) by lia. f_equal. replace (S n - n)%nat with 1%nat by lia.
+          rewrite (skipn_cons_nth n evs _ En). reflexivity. }
+        rewrite F, live_fold_app, live_fold_one.
+        rewrite aget_live_step.
+        destruct (Nat.eq_dec n k) as [->|Hne].
+        + rewrite Hk in En. inversion En; subst. rewrite (proj2 (keyeqb_eq _ _) eq_refl). reflexivity.
+        + assert (Hd : sess_key s' <> sess_key s) by (apply (Hl n (s', rel')); [lia|exact En]).
+          destruct (keyeqb (sess_key s) (sess_key s')) eqn:E; [apply keyeqb_eq in E; congruence|].
+          apply IH; [lia|]. intros j e' Hj. apply Hl. lia.
+      - assert (F : firstn (S n) evs = firstn n evs).
+        { apply nth_error_None in En. rewrite !firstn_all2 by lia. reflexivity. }
+        rewrite F. destruct (Nat.eq_dec n k) as [->|Hne]; [congruence|].
+        apply IH; [lia|]. intros j e' Hj. apply Hl. lia. }
+    apply G; assumption. }
+  unfold live_step. destruct rel; [apply adel_absent, A|apply aset_same, A].
+Qed.
+
+Lemma firstn_snoc {A} n (l : list A) x : nth_error l n = Some x -> firstn (S n) l = firstn n l ++ [x].
+Proof.
+  intros H. rewrite (firstn_split n (S n) l) by lia. f_equal. replace (S n - n)%nat with 1%nat by lia.
+  rewrite (skipn_cons_nth n l _ H). reflexivity.
+Qed.
+
+Lemma head_delivery g0 g fl evs m d m' :
+  f_stale fl = true -> f_drop fl = false -> f_relall fl = false ->
+  delivery_latest (reqs_from g 0 evs) m d m' ->
+  (forall i, (i <= length evs)%nat -> uniq g0 (live_fold [] (firstn i evs))) ->
+  forall rc, (m <= length evs)%nat -> pinv g0 rc (live_fold [] (firstn m evs)) ->
+  pinv g0 (recv_run fl rc d) (live_fold [] (firstn m' evs)).
+Proof.
+  intros Hs Hd Hr Hdel Hu.
+  induction Hdel as [m|m q d m' Hq Hdel IH|m k q d m' Hk Hq Hlat Hdel IH]; intros rc Hml Hp; [exact Hp| |].
+  - rewrite recv_run_cons.
+    assert (Hm : (S m <= length evs)%nat).
+    { rewrite <- (reqs_from_length g 0 evs). apply nth_error_Some. congruence. }
+    apply IH; [exact Hm|].
+    destruct (reqs_from_nth _ _ _ _ _ Hq) as (_ & _ & s & rel & He & Ha & Hc).
+    rewrite (recv_step_head fl rc q Hs Hd Hr). cbv zeta. rewrite Ha, Hc.
+    rewrite (firstn_snoc m evs _ He), live_fold_app, live_fold_one.
+    pose proof (Hu m ltac:(lia)) as U0. pose proof (Hu (S m) Hm) as U1.
+    rewrite (firstn_snoc m evs _ He), live_fold_app, live_fold_one in U1.
+    destruct Hp as (Hst & Hrest). unfold live_step in *. destruct rel; cbn [act_of].
+    + apply (pinv_delete g0 rc _ s); [split; assumption|exact U0].
+    + apply (pinv_update g0 rc _ s); [split; assumption|exact U0|exact U1].
+  - rewrite recv_run_cons. apply IH; [exact Hml|].
+    destruct (reqs_from_nth _ _ _ _ _ Hq) as (_ & _ & s & rel & He & Ha & Hc).
+    rewrite (recv_step_head fl rc q Hs Hd Hr). cbv zeta. rewrite Ha, Hc.
+    assert (Hsame : live_step (live_fold [] (firstn m evs)) s rel = live_fold [] (firstn m evs)).
+    { apply (live_latest evs k m s rel He Hk). intros j [s' rel'] Hj Hj'.
+      assert (Hlen : (j < length (reqs_from g 0 evs))%nat) by (rewrite reqs_from_length; apply nth_error_Some; congruence).
+      destruct (nth_error (reqs_from g 0 evs) j) as [q'|] eqn:Eq'; [|apply nth_error_None in Eq'; lia].
+      destruct (reqs_from_nth _ _ _ _ _ Eq') as (_ & _ & s2 & rel2 & He2 & _ & Hc2).
+      rewrite Hj' in He2. inversion He2; subst s2 rel2. simpl.
+      pose proof (Hlat j q' Hj Eq') as Hne. rewrite Hc2, Hc, !cp_key_s2c in Hne. exact Hne. }
+    pose proof (Hu m Hml) as U0.
+    destruct Hp as (Hst & Hrest). rewrite <- Hsame. unfold live_step in Hsame |- *. destruct rel; cbn [act_of].
+    + apply (pinv_delete g0 rc _ s); [split; assumption|exact U0].
+    + apply (pinv_update g0 rc _ s); [split; assumption|exact U0|]. rewrite Hsame. exact U0.
+Qed.
+
+Lemma store_step_head fl rc q s rel live :
+  f_stale fl = true -> f_drop fl = false -> f_relall fl = false ->
+  q_act q = act_of rel -> q_cp q = s2c s -> rc_store rc = expected_store live ->
+  rc_store (recv_step fl rc q) = expected_store (live_step live s rel).
+Proof.
+  intros Hs Hd Hr Ha Hc Hst. rewrite (recv_step_head fl rc q Hs Hd Hr). cbv zeta. rewrite Ha, Hc.
+  unfold live_step, expected_store. destruct rel; cbn [act_of].
+  - unfold recv_delete. cbn [rc_store]. rewrite map_adel, cp_key_s2c. fold (expected_store live). rewrite <- Hst. reflexivity.
+  - unfold recv_update. cbn [rc_store]. rewrite map_aset, cp_key_s2c. fold (expected_store live). rewrite <- Hst. reflexivity.
+Qed.
+
+Lemma head_delivery_store g fl evs m d m' :
+  f_stale fl = true -> f_drop fl = false -> f_relall fl = false ->
+  delivery_latest (reqs_from g 0 evs) m d m' ->
+  forall rc, rc_store rc = expected_store (live_fold [] (firstn m evs)) ->
+  rc_store (recv_run fl rc d) = expected_store (live_fold [] (firstn m' evs)).
+Proof.
+  intros Hs Hd Hr Hdel.
+  induction Hdel as [m|m q d m' Hq Hdel IH|m k q d m' Hk Hq Hlat Hdel IH]; intros rc Hst; [exact Hst| |].
+  - rewrite recv_run_cons. apply IH.
+    destruct (reqs_from_nth _ _ _ _ _ Hq) as (_ & _ & s & rel & He & Ha & Hc).
+    rewrite (firstn_snoc m evs _ He), live_fold_app, live_fold_one.
+    apply (store_step_head fl rc q s rel _ Hs Hd Hr Ha Hc Hst).
+  - rewrite recv_run_cons. apply IH.
+    destruct (reqs_from_nth _ _ _ _ _ Hq) as (_ & _ & s & rel & He & Ha & Hc).
+    assert (Hsame : live_step (live_fold [] (firstn m evs)) s rel = live_fold [] (firstn m evs)).
+    { apply (live_latest evs k m s rel He Hk). intros j [s' rel'] Hj Hj'.
+      assert (Hlen : (j < length (reqs_from g 0 evs))%nat) by (rewrite reqs_from_length; apply nth_error_Some; congruence).
+      destruct (nth_error (reqs_from g 0 evs) j) as [q'|] eqn:Eq'; [|apply nth_error_None in Eq'; lia].
+      destruct (reqs_from_nth _ _ _ _ _ Eq') as (_ & _ & s2 & rel2 & He2 & _ & Hc2).
+      rewrite Hj' in He2. inversion He2; subst s2 rel2. simpl.
+      pose proof (Hlat j q' Hj Eq') as Hne. rewrite Hc2, Hc, !cp_key_s2c in Hne. exact Hne. }
+    rewrite <- Hsame. apply (store_step_head fl rc q s rel _ Hs Hd Hr Ha Hc Hst).
+Qed.
+
+Lemma converges_head g0 cap g fl evs d :
+  f_stale fl = true -> f_drop fl = false -> f_relall fl = false ->
+  g <> 0%N -> (forall e, In e evs -> s_srg (fst e) = g) -> (N.of_nat (length evs) < n64)%N ->
+  let reqs := snd (sender_run [(g, (0%N, new_ring cap))] evs) in
+  delivery_latest reqs 0 d (length reqs) ->
+  rc_store (recv_run fl (mkrecv [] [] g0) d) = expected_store (live_run evs).
+Proof.
+  intros Hs Hd Hr Hg Hall Hlt reqs Hdel. unfold reqs in *.
+  destruct (stream_of_sender cap g evs Hg Hall Hlt) as [E _]. rewrite E in Hdel.
+  rewrite (head_delivery_store g fl evs 0 d _ Hs Hd Hr Hdel (mkrecv [] [] g0) eq_refl).
+  rewrite reqs_from_length, firstn_all. reflexivity.
+Qed.
+
+Lemma pools_exact_head g0 cap g fl evs d :
+  f_stale fl = true -> f_drop fl = false -> f_relall fl = false ->
+  g <> 0%N -> (forall e, In e evs -> s_srg (fst e) = g) -> (N.of_nat (length evs) < n64)%N ->
+  fresh g0 ->
+  (forall i, (i <= length evs)%nat -> uniq g0 (live_run (firstn i evs))) ->
+  let reqs := snd (sender_run [(g, (0%N, new_ring cap))] evs) in
+  delivery_latest reqs 0 d (length reqs) ->
+  forall x sid, lease_at (rc_reg (recv_run fl (mkrecv [] [] g0) d)) x = Some sid <->
+                In (x, sid) (expected_leases g0 (live_run evs)).
+Proof.
+  intros Hs Hd Hr Hg Hall Hlt Hf Hu reqs Hdel x sid. unfold reqs in *.
+  destruct (stream_of_sender cap g evs Hg Hall Hlt) as [E _]. rewrite E in Hdel.
+  rewrite <- owner_expected.
+  assert (P0 : pinv g0 (mkrecv [] [] g0) (live_fold [] (firstn 0 evs))).
+  { split; [reflexivity|]. split; [constructor|]. split; [reflexivity|].
+    intros x' sid'. simpl. rewrite Hf. split; [discriminate|]. intros (e & [] & _). }
+  pose proof (head_delivery g0 g fl evs 0 d _ Hs Hd Hr Hdel Hu (mkrecv [] [] g0) ltac:(lia) P0) as (_ & _ & _ & Hl).
+  rewrite reqs_from_length, firstn_all in Hl. apply Hl.
 Qed.
